@@ -18,7 +18,7 @@ from vmon.scenario import tadd
 
 LEVEL = "exploration"
 TECHNIQUE = "runtime monitoring under bounded exhaustive configuration enumeration: exit status, file set, record times, dataset lifecycle hooks, split-vs-unsplit pair monitor, C06 snapshot monitor on every run"
-LEVEL_TEXT = ("All cold-start runs with 1 <= steps <= 9 (thorough 16), 1 <= period <= 4 (6) steps, numrec in {0,1,2,3} ({0,1,2,3,4,7}), both layouts, with and without particle "
+LEVEL_TEXT = ("All cold-start runs with 1 <= steps <= 9 (thorough 22), 1 <= period <= 4 (7) steps, numrec in {0,1,2,3} ({0,1,2,3,4,7}), both layouts, with and without particle "
               "variables, forward and reversed, are executed for real; each must end normally with exactly one record per output time start +- k*period in [start, stop), files "
               "named by the documented numbering with numrec records each (last possibly fewer), all datasets closed and readable, and equal to the unsplit run record for record.")
 LEVEL_NOTE = "Exhaustive only within the stated bounds (evidence sets exhaustive: true); durations are whole numbers of steps as the property's quantifier (number of steps) states."
@@ -34,7 +34,7 @@ def gen_cases(tier: str, seed: int) -> list[dict[str, Any]]:
     if tier == "quick":
         NS, PS, NR = range(1, 10), range(1, 5), [0, 1, 2, 3]
     else:
-        NS, PS, NR = range(1, 17), range(1, 7), [0, 1, 2, 3, 4, 7]
+        NS, PS, NR = range(1, 23), range(1, 8), [0, 1, 2, 3, 4, 7]
     cases = []
     for ns, p, layout, pv, rev in itertools.product(NS, PS, ["sparse", "dense"], [True, False], [False, True]):
         cases.append(dict(nsteps=ns, period=p, layout=layout, pvars=pv, reversed=rev, numrecs=NR, seed=seed))
